@@ -421,17 +421,24 @@ fn substring(
 ) -> error::Result<model::Value> {
     let mut args = args.iter();
     let v = String::try_from(args.next().unwrap())?;
-    let s = f64::try_from(args.next().unwrap())?.round() as usize - 1;
-    let c = if let Some(v) = args.next() {
-        Some(f64::try_from(v)?.round() as usize)
+    let start = xpath_round(f64::try_from(args.next().unwrap())?);
+    let end = if let Some(v) = args.next() {
+        Some(start + xpath_round(f64::try_from(v)?))
     } else {
         None
     };
-    let (_, mut r) = v.split_at(s);
-    if let Some(c) = c {
-        (r, _) = r.split_at(c);
-    }
-    Ok(model::Value::Text(r.to_string()))
+    // the characters whose position p (counted from 1) satisfies
+    // p >= round(start) and p < round(start) + round(length); comparisons with NaN are false
+    let r = v
+        .chars()
+        .enumerate()
+        .filter(|(i, _)| {
+            let p = (i + 1) as f64;
+            p >= start && end.map(|e| p < e).unwrap_or(true)
+        })
+        .map(|(_, c)| c)
+        .collect::<String>();
+    Ok(model::Value::Text(r))
 }
 
 fn string_length(
@@ -444,7 +451,9 @@ fn string_length(
     } else {
         &model::Value::Node(vec![node])
     };
-    Ok(model::Value::Number(String::try_from(arg)?.len() as f64))
+    Ok(model::Value::Number(
+        String::try_from(arg)?.chars().count() as f64,
+    ))
 }
 
 fn normalize_space(
@@ -598,5 +607,18 @@ fn round(
     _: &mut model::Context,
 ) -> error::Result<model::Value> {
     let arg = f64::try_from(args.first().unwrap())?;
-    Ok(model::Value::Number(arg.round()))
+    Ok(model::Value::Number(xpath_round(arg)))
+}
+
+/// The integer closest to the argument; of two such integers the one closest to positive
+/// infinity; NaN, infinities and zeros are returned as they are; an argument in [-0.5, -0)
+/// gives negative zero.
+fn xpath_round(x: f64) -> f64 {
+    if x.is_nan() || x.is_infinite() || x.fract() == 0.0 {
+        x
+    } else if (-0.5..0.0).contains(&x) {
+        -0.0
+    } else {
+        (x + 0.5).floor()
+    }
 }
